@@ -4,7 +4,7 @@ from contracts import c02, sw, enc
 LEVEL = "other"
 TRUSTED = [sw.A1]
 ASSUMPTIONS = [sw.A3]
-EXPLANATION = ("Proved (PyVC, unbounded): kFlowDecomp.is_valid_solution itself is under contract (answers True exactly when every counted edge of the flow is within tolerance times its traversal count of the summed path weights; two abstract routes, both loops cut at ghost prefix sums, 8 concrete instances); the ENCODERS kFlowDecomp / kFlowDecompCycles._encode_flow_decomposition add exactly the rows  sum_i pi(e,i) = flow(e), pi(e,i) = x(e,i)*w(i)  on every non-ignored edge, for every assignment of the columns (sound and complete, contracts/enc.py); the linearisation helpers are exact (C12) and get_solution returns one weight per route of the requested numeric type. "
+EXPLANATION = ("Proved (PyVC, unbounded): kFlowDecomp.is_valid_solution and kFlowDecompCycles.is_valid_solution themselves are under contract (True only when every counted edge of the flow is within tolerance times its traversal count - at least once in the walk model - of the summed route weights; the converse direction is auxiliary; two abstract routes, both loops cut at ghost prefix sums, 13 concrete instances each); the ENCODERS kFlowDecomp / kFlowDecompCycles._encode_flow_decomposition add exactly the rows  sum_i pi(e,i) = flow(e), pi(e,i) = x(e,i)*w(i)  on every non-ignored edge, for every assignment of the columns (sound and complete, contracts/enc.py); the linearisation helpers are exact (C12) and get_solution returns one weight per route of the requested numeric type. "
                "Bounded, solver-independent (SymMILP): for each enumerated instance z3 proves that EVERY assignment admitted by the MILP the real encoder built explains every non-ignored edge exactly. "
                "Bounded (RC): exact recomputation from the returned routes and weights on the small universe, greedy and MILP routes, node-weighted input, ignored elements.")
 
